@@ -11,11 +11,12 @@ CONSTANTS
   ClassExprs <- ClassExprsFull
   Repaired = {"KvCompName", "SliceKVRules"}
   Variant = "asCoded"
+  MaxNonces = 1
   MaxSteps = 6
   EmitEdges = FALSE
 INIT Init
 NEXT Next
 VIEW View
 INVARIANTS TypeOK RegistryMatchesDocument
-PROPERTIES AtMostOnce DefBeforeFirstUse EveryUseHasCallOrName MiddlewareNeverInlined StylesheetServesRegistered ContextsIndependent
+PROPERTIES AtMostOnce DefBeforeFirstUse EveryUseHasCallOrName MiddlewareNeverInlined StylesheetServesRegistered ContextsIndependent NonceKeepsRegistry
 CHECK_DEADLOCK FALSE
